@@ -25,6 +25,11 @@ CHECKS = {
     note=BASE + "timeline = order observed by the driver (commands logged before they are written); well-formedness of individual lines is judged by a line classifier; synthetic network.",
     technique="Lean 4 proof (contract automaton properties, dispatch no-crash) + acceptance of real ASan/UBSan engine session timelines for generated command scripts",
     design="6/C05"),
+ "C04": dict(
+    text="Lean theorems (Props/C04.lean): soundness of the claim-calculus rules by which the search produces mate claims (terminal mate, negamax step, all-moves-searched, hash-table ply shift = the table's setScore/getScore) w.r.t. forced mates within a ply budget; soundness of the checkers for forced-mate certificates and for refutation certificates; exact mate-in-one oracle. Partial: the map from negaScout's return paths to the rules is by reading; the engine-level tie is the audit of every `score mate N` (N<=3) of the real engine through Lean-verified certificates, mate-in-one at every depth, and the best move keeping the mate.",
+    note=BASE + "certificates come from an untrusted solver in the harness and are verified by the proven Lean checkers; claims with N>3 outside tablebase classes are not audited; synthetic networks; full strength only.",
+    technique="Lean 4 proof (claim calculus, certificate checkers) + audit of the real engine's mate announcements by Lean-verified win / refutation certificates",
+    design="6/C04, Appendix A"),
  "C08": dict(
     text="Lean theorems (Props/C08.lean): bucket index aligned and in range for every size >= 512 and every 64-bit key; field layout disjoint and lossless; xor validation makes any validating pair of words bit-identical to one unit record (relaxed-atomic over-approximation); ply shift exact; hash buckets disjoint from the resident-tablebase bytes; insert writes only inside its bucket. The universally quantified part is proved; the tie to the C++ is a differential run.",
     note=BASE + "no 64-bit key/xor coincidences (explicit hypothesis); relaxed atomics modelled as 'a load returns some previously written value of that word'; harness reads private members.",
